@@ -8,7 +8,7 @@ RULE = ('generated charts on every host (plain, instrumented, queued, active obj
         'state\'s handler or the function it decorates, and on instrumented queued charts current_state() must return the same name. '
         'Observed only at step boundaries. distinct_nontrivial = distinct (host config, rest-state depth, step kind) tuples')
 CASES = {'quick': 3000, 'thorough': 200000}
-BUDGET = {'quick': 40, 'thorough': 900}
+BUDGET = {'quick': 40, 'thorough': 300}
 REQUIRE = {'name_observations': 30000, 'plain_host_runs': 200}
 ASSUME = ['what state_name shows in the middle of a step or right after an is_in query is not asserted']
 
